@@ -318,7 +318,7 @@ func (r *runner) fsHook(op string, paths []string, mutating bool, err error) {
 	}
 	prot := r.protectedFiles()
 	for _, p := range paths {
-		cp := filepath.Clean(p)
+		cp := normPath(filepath.Clean(p))
 		if _, ok := prot[cp]; ok && err == nil {
 			r.protectedHits = append(r.protectedHits, fmt.Sprintf("mutating call %s on pre-existing output %s", op, cp))
 		}
@@ -455,32 +455,42 @@ func oracleC18(r *runner, o *Obs) []Violation {
 	if started["j[]"] != 1 {
 		add("task-count", fmt.Sprintf("the joining process ran %d tasks for one sub-stream", started["j[]"]))
 	}
-	exp := []string{}
-	for _, m := range members {
-		exp = append(exp, applyJoinMod(m, ps.JoinMod))
-	}
-	want := strings.Join(exp, ps.JoinSep)
-	got := []string{}
-	for _, n := range o.Notes {
-		if strings.HasPrefix(n, "joined:") {
-			got = append(got, n[len("joined:"):])
-		}
-	}
-	if len(got) == 1 && ps.JoinMod != "" {
-		// the documentation is silent on whether a relocating modifier keeps the "../" prefix
-		// inside a join: compare order and names only
-		norm := func(x string) string {
-			parts := strings.Split(x, ps.JoinSep)
-			for i := range parts {
-				parts[i] = strings.TrimPrefix(parts[i], "../")
+	for _, port := range []string{"x", "y"} {
+		mem, sep := members, ps.JoinSep
+		if port == "y" {
+			if ps.JoinSep2 == "" {
+				continue
 			}
-			return strings.Join(parts, ps.JoinSep)
+			mem, sep = r.ref.Emit["j.members2"], ps.JoinSep2
 		}
-		got[0], want = norm(got[0]), norm(want)
+		exp := []string{}
+		for _, m := range mem {
+			exp = append(exp, applyJoinMod(m, ps.JoinMod))
+		}
+		want := strings.Join(exp, sep)
+		got := []string{}
+		for _, n := range o.Notes {
+			if strings.HasPrefix(n, "joined:"+port+":") {
+				got = append(got, n[len("joined:"+port+":"):])
+			}
+		}
+		if len(got) == 1 && ps.JoinMod != "" {
+			// the documentation is silent on whether a relocating modifier keeps the "../" prefix
+			// inside a join: compare order and names only
+			norm := func(x string) string {
+				parts := strings.Split(x, sep)
+				for i := range parts {
+					parts[i] = strings.TrimPrefix(parts[i], "../")
+				}
+				return strings.Join(parts, sep)
+			}
+			got[0], want = norm(got[0]), norm(want)
+		}
+		if len(got) == 1 && got[0] != want {
+			add("join-argument", fmt.Sprintf("the placeholder of in-port %s was replaced by %q, its sub-stream is %q", port, got[0], want))
+		}
 	}
-	if len(got) == 1 && got[0] != want {
-		add("join-argument", fmt.Sprintf("the placeholder was replaced by %q, the sub-stream is %q", got[0], want))
-	}
+	members = append(append([]string{}, members...), r.ref.Emit["j.members2"]...)
 	// audit: every member is recorded as upstream
 	if a, ok := o.Tree["joined.txt.audit.json"]; ok {
 		var rec struct {
